@@ -16,7 +16,7 @@
 (* computed from the logged calls and their result kinds only, never from   *)
 (* the observed values.  One VERDICT line is printed per trace.             *)
 (***************************************************************************)
-EXTENDS Annotate, Json, IOUtils, TLCExt
+EXTENDS Guard, Json, IOUtils, TLCExt
 
 Traces == JsonDeserialize(IOEnv.TRACE_FILE)
 
@@ -103,6 +103,19 @@ StepParse ==
 QTab(O, q) == CASE q.fn = "trp"  -> TRP_Table(O, q)
                 [] q.fn = "atrp" -> ATRP_Table(O, q)
                 [] q.fn = "dag"  -> DAG_Table(O, q)
+\* C17: statistics of the current object (line.es), judged against the
+\* presence relation and the stream observed in the same line
+StepStats ==
+  /\ Line.op = "stats"
+  /\ fails' = fails \cup { <<l, x[1], x[2]>> : x \in NotOk(StatsTable(Line.obs, Line.es)) }
+  /\ UNCHANGED <<R, T, rej, prevO>>
+
+\* C19: one call of the inherited / blocked API on a copy of the current object
+StepGuard ==
+  /\ Line.op = "guard"
+  /\ fails' = fails \cup { <<l, x[1], x[2]>> : x \in NotOk(GuardTable(R, prevO, Line)) }
+  /\ UNCHANGED <<R, T, rej, prevO>>
+
 StepPaths ==
   /\ Line.op = "paths"
   /\ LET bad == UNION { NotOk(QTab(Line.obs, Line.qs[i])) : i \in DOMAIN Line.qs }
@@ -110,7 +123,7 @@ StepPaths ==
   /\ UNCHANGED <<R, T, rej, prevO>>
 
 Step == /\ l <= Len(Traces[tid])
-        /\ (StepNew \/ StepAdd \/ StepNode \/ StepObserve \/ StepBattery \/ StepDerive \/ StepParse \/ StepPaths)
+        /\ (StepNew \/ StepAdd \/ StepNode \/ StepObserve \/ StepBattery \/ StepDerive \/ StepParse \/ StepPaths \/ StepStats \/ StepGuard)
         /\ l' = l + 1
         /\ UNCHANGED tid
 
